@@ -280,12 +280,160 @@ def k3c_transitive(rep: Any, tier: str = "quick") -> None:
         rep.candidate(key, f"deps {deps}, query {q}", m, replay)
 
 
+def k3b_find_stale(rep: Any, tier: str = "quick") -> None:
+    """find_stale_sccs + verify_transitive_deps + is_transitive_scc_dep on a four-module graph:
+    SCC0 = {a, b} (a cycle), SCC1 = {c}, SCC2 = {d}.  a imports c directly; b may reach d only
+    indirectly (PRI_INDIRECT) -- reachable through SCC1 iff the solver-chosen edge c -> d exists."""
+    import mypy.build as B
+
+    K = Kernel("mypy.build", ["find_stale_sccs", "verify_transitive_deps", "order_ascc_ex", "BuildManager.is_transitive_scc_dep"], closure=False, extra_globals={"order_ascc": lambda graph, ids: sorted(ids)})
+    rep.kernels_from(K)
+    fn = K["find_stale_sccs"]
+    ctx = Ctx(max_paths=2_000_000)
+    found: dict = {}
+    n = {"fresh": 0, "stale": 0}
+    MODS = ["a", "b", "c", "d"]
+
+    def body(c: Ctx) -> None:
+        fresh = {m: bool(c.bool("is_fresh:" + m)) for m in MODS}
+        c_to_d = bool(c.bool("edge c->d"))
+        b_ind_d = bool(c.bool("b has indirect dep d"))
+        deps = {"a": ["b", "c"], "b": ["a"] + (["d"] if b_ind_d else []), "c": ["d"] if c_to_d else [], "d": []}
+        prios = {"a": {"b": B.PRI_HIGH, "c": B.PRI_HIGH}, "b": {"a": B.PRI_HIGH, "d": B.PRI_INDIRECT}, "c": {"d": B.PRI_HIGH}, "d": {}}
+        hash_ok = {(m, d): bool(c.bool(f"dep_hash_current:{m}->{d}")) for m in MODS for d in deps[m]}
+        tdh_same = {m: bool(c.bool("trans_dep_hash_unchanged:" + m)) for m in MODS}
+        d_in_graph = True
+
+        class Meta:
+            def __init__(self, same: bool):
+                self.trans_dep_hash = b"T" if same else b"OLD"
+
+        class St:
+            def __init__(self, m: str):
+                self.id = m
+                self.dependencies = list(deps[m])
+                self.priorities = {k: v for k, v in prios[m].items() if k in deps[m]}
+                self.dep_hashes = {d: (b"I" + d.encode() if hash_ok[(m, d)] else b"STALE") for d in deps[m]}
+                self.interface_hash = b"I" + m.encode()
+                self.trans_dep_hash = b"T"
+                self.meta = Meta(tdh_same[m])
+                self.error_lines: list = []
+                self.xpath = m + ".py"
+                self.order = MODS.index(m)
+
+            def is_fresh(self) -> bool:
+                return fresh[self.id]
+
+        graph = {m: St(m) for m in MODS}
+
+        class SC:
+            def __init__(self, i: int, ids: set, d: set):
+                self.id = i
+                self.mod_ids = ids
+                self.deps = d
+
+        sccs = [SC(0, {"a", "b"}, {1}), SC(1, {"c"}, {2} if c_to_d else set()), SC(2, {"d"}, set())]
+
+        class Mgr:
+            logging_enabled = False
+            tracing_enabled = False
+            scc_by_id = {sc.id: sc for sc in sccs}
+            scc_by_mod_id = {m: sc for sc in sccs for m in sc.mod_ids}
+            transitive_deps_cache: dict = {}
+            is_transitive_scc_dep = K["BuildManager.is_transitive_scc_dep"]
+
+        mg = Mgr()
+        mg.transitive_deps_cache = {}
+        stale, fr = fn(list(sccs), graph, mg)
+        got_fresh = {sc.id for sc in fr}
+        c.stats["assert_queries"] += 1
+        ok = len(stale) + len(fr) == len(sccs) and not ({sc.id for sc in stale} & got_fresh)
+        for sc in sccs:
+            members_fresh = all(fresh[m] for m in sc.mod_ids)
+            hashes_ok = all(hash_ok[(m, d)] for m in sc.mod_ids for d in deps[m])
+            indirect_ok = True
+            for m in sc.mod_ids:
+                if tdh_same[m]:
+                    continue
+                for d in deps[m]:
+                    if prios[m].get(d) == B.PRI_INDIRECT and d not in sc.mod_ids:
+                        # b -> d: SCC0 reaches SCC2 only through SCC1 (a -> c, c -> d)
+                        indirect_ok = indirect_ok and c_to_d
+            want = members_fresh and hashes_ok and indirect_ok
+            n["fresh" if sc.id in got_fresh else "stale"] += 1
+            if (sc.id in got_fresh) != want:
+                ok = False
+                found.setdefault(
+                    f"find_stale_sccs declares an SCC {'fresh' if sc.id in got_fresh else 'stale'} against its specification: members_fresh={members_fresh} dep_hashes_current={hashes_ok} indirect_reachable={indirect_ok}",
+                    (c.path_model(), sc.id),
+                )
+        c.stats["discharged" if ok else "refuted"] += 1
+
+    ctx.explore(body)
+    rep.add_ctx("K3b find_stale_sccs vs its docstring specification", ctx, outcomes=dict(n))
+    rep.twin("K3b: fresh and stale verdicts both reached", n["fresh"] > 0 and n["stale"] > 0)
+    for key, (m, scc_id) in found.items():
+        rep.sample({"kernel": "find_stale_sccs", "class": key, "model": m, "scc": scc_id})
+
+        def replay(d: str, m: dict = m, scc_id: int = scc_id, key: str = key) -> tuple[bool, str]:
+            MODS = ["a", "b", "c", "d"]
+            c_to_d = bool(m.get("edge c->d"))
+            b_ind_d = bool(m.get("b has indirect dep d"))
+            deps = {"a": ["b", "c"], "b": ["a"] + (["d"] if b_ind_d else []), "c": ["d"] if c_to_d else [], "d": []}
+            prios = {"a": {"b": B.PRI_HIGH, "c": B.PRI_HIGH}, "b": {"a": B.PRI_HIGH, "d": B.PRI_INDIRECT}, "c": {"d": B.PRI_HIGH}, "d": {}}
+
+            class Meta:
+                def __init__(self, same: bool):
+                    self.trans_dep_hash = b"T" if same else b"OLD"
+
+            class St:
+                def __init__(self, mod: str):
+                    self.id = mod
+                    self.dependencies = list(deps[mod])
+                    self.priorities = {k: v for k, v in prios[mod].items() if k in deps[mod]}
+                    self.dep_hashes = {x: (b"I" + x.encode() if m.get(f"dep_hash_current:{mod}->{x}") else b"STALE") for x in deps[mod]}
+                    self.interface_hash = b"I" + mod.encode()
+                    self.trans_dep_hash = b"T"
+                    self.meta = Meta(bool(m.get("trans_dep_hash_unchanged:" + mod)))
+                    self.error_lines: list = []
+                    self.xpath = mod + ".py"
+                    self.order = MODS.index(mod)
+                    self.size_hint = 1
+
+                def is_fresh(self) -> bool:
+                    return bool(m.get("is_fresh:" + self.id))
+
+            graph = {x: St(x) for x in MODS}
+            sccs = [B.SCC({"a", "b"}, 0, [1]), B.SCC({"c"}, 1, [2] if c_to_d else []), B.SCC({"d"}, 2, [])]
+
+            class Mgr:
+                logging_enabled = False
+                tracing_enabled = False
+                scc_by_id = {sc.id: sc for sc in sccs}
+                scc_by_mod_id = {x: sc for sc in sccs for x in sc.mod_ids}
+                transitive_deps_cache: dict = {}
+
+                def is_transitive_scc_dep(self, a: int, b: int) -> bool:
+                    return B.BuildManager.is_transitive_scc_dep(self, a, b)  # type: ignore[arg-type]
+
+            mg = Mgr()
+            mg.transitive_deps_cache = {}
+            stale, fr = B.find_stale_sccs(list(sccs), graph, mg)  # type: ignore[arg-type]
+            got = scc_id in {sc.id for sc in fr}
+            claimed = " fresh " in key
+            return got == claimed, f"real find_stale_sccs: SCC {scc_id} is {'fresh' if got else 'stale'} under {m}"
+
+        rep.candidate(key, f"SCC {scc_id}: {m}", m, replay)
+
+
 def run(rep: Any, tier: str) -> None:
     rep.bounds += [
         "K3a: has_meta / dependency list equal / suppressed import options equal and every bool option read by is_fresh symbolic",
+        "K3b: SCCs {a,b}, {c}, {d}; per-module is_fresh, per-edge dependency-hash currency, per-module transitive-dependency-hash equality, the indirect dependency b->d and the edge c->d that makes it reachable are all symbolic",
         "K3c: every DAG among 3 (quick) / 4 (thorough) SCCs, every sequence of 2 / 3 queries with the negative/positive cache carried over",
         "K4: dependency lists = subsets of 4 (quick) / 7 (thorough) dotted names, source-module membership and find_module answers symbolic",
     ]
     k3a_is_fresh(rep)
+    k3b_find_stale(rep, tier)
     k3c_transitive(rep, tier)
     k4_removed_submodules(rep, tier)
